@@ -179,7 +179,8 @@ def make_cases(seed: int, tier: str, n_cases: int | None = None) -> list[dict]:
         # a second run into the populated directory: clause 3 is judged on the event log of the second run
         # (an append to a file that this run did not create keeps text of the earlier run)
         rs = rng(cs, "rerun")
-        histories.append([{"sigma": engine.sample_sigma(rs, ["enum"]), "options": options},
+        first_opts = dict(options, nc=not options.get("nc")) if rs.random() < 0.5 else options  # the earlier run may have used the other naming flag
+        histories.append([{"sigma": engine.sample_sigma(rs, ["enum"]), "options": first_opts},
                           {"sigma": engine.sample_sigma(rs, ["cwd", "out_spelling", "enum"]), "options": options}])
         if histories[-1][1]["sigma"].get("out_spelling") in ("nested", "nested_rel"):
             histories[-1][1]["sigma"]["out_spelling"] = "abs"
